@@ -537,7 +537,8 @@ def c15_class(label):
 def id_job(job):
     sj, flavour = job
     import idtu
-    binp, out = vlib.build_one(idtu.emit(sj), flavour, name=sj['name'])
+    hdr = '<hfsm2/machine_dev.hpp>' if vlib.FLAVOURS[flavour][2] == 'dev' else '<hfsm2/machine.hpp>'
+    binp, out = vlib.build_one(idtu.emit(sj, hdr), flavour, name=sj['name'])
     if not binp: return (sj, flavour, None, 'build failed: ' + out[:1500])
     rc, so, se = vlib.run_bin(binp, [], timeout=60)
     if rc != 0: return (sj, flavour, None, 'exit %d %s' % (rc, se[-500:]))
